@@ -13,7 +13,7 @@ from fractions import Fraction
 import numpy as _np
 
 from . import core, pw, angle
-from .core import Sym, SymBool, LazyAbs, Cond, sym_and, sym_or
+from .core import Sym, SymBool, LazyAbs, LazyRoot, Cond, sym_and, sym_or
 from .pw import PW
 from .angle import SymAngle
 
@@ -647,7 +647,14 @@ class _Linalg:
     def norm(self, x, ord=None, axis=None, keepdims=False):
         x = sarr(x, copy=False)
         s = (x * x).sum(axis=axis)
-        return snp.sqrt(s)
+
+        def lazy(v):
+            v = Sym._co(core.force(v))
+            if v.is_const():
+                return v.sqrt()
+            return core.LazyRoot(v)
+
+        return _elementwise(lazy, s) if isinstance(s, _np.ndarray) else lazy(s)
 
     def det(self, m):
         m = sarr(m, copy=False)
@@ -1118,6 +1125,9 @@ class SymNP(types.ModuleType):
         keys = [(_np.asarray(_plain(k), dtype=object) if isinstance(k, _np.ndarray) else _np.asarray(k)) for k in keys]
         if all(k.dtype != object for k in keys):
             return _np.lexsort(keys)
+        if keys[0].ndim == 2:
+            # numpy sorts along the last axis: one independent lexsort per row
+            return _np.array([self.lexsort([k[r] for k in keys]) for r in range(keys[0].shape[0])])
         n = len(keys[0])
 
         def cmp(i, j):
